@@ -27,7 +27,7 @@ def record_and_validate(ctx, idx, seed, steps, segs):
     rep_file = ctx.path("lineage-%d.report.json" % idx)
     _, rep, _ = ctx.vh(["record-lineage", "-out", trace, "-report", rep_file, "-steps", str(steps), "-segments", str(segs),
                         "-seed", str(seed)], pkg="vh_genome", expect_report=rep_file)
-    r = ctx.tlc("Trace_GenomeOps", env={"TRACE": trace}, workers=1, timeout=1800)
+    r = ctx.tlc("Trace_GenomeOps", env={"TRACE": trace}, workers=1, timeout=1800, xss=True)
     if not r.ok:
         raise Infra("trace validation did not complete for seed %d: %s\n%s" % (seed, r.violated, r.output[-2000:]))
     fails = []
